@@ -375,6 +375,7 @@ func init() {
 			type out struct {
 				key string
 			}
+			bad := ""
 			ch := make(chan out, 1)
 			go func() {
 				defer func() {
@@ -396,7 +397,27 @@ func init() {
 					return
 				}
 				pol, _ := e.GetPolicy()
-				ch <- out{rulesKey(pol)}
+				key := rulesKey(pol)
+				// the index must follow the re-ordering: every listed rule is present, and removing
+				// the rule in slot i yields exactly the listing without slot i (same order)
+				pol = append([][]string(nil), pol...)
+				for i, r := range pol {
+					if ok, _ := e.HasPolicy(toIface(r)...); !ok {
+						bad = fmt.Sprintf("after the ordering load HasPolicy%v is false although the rule is listed %s", r, key)
+					}
+					if mask%7 == i%7 && bad == "" {
+						okr, _ := e.RemovePolicy(toIface(r)...)
+						after, _ := e.GetPolicy()
+						var want [][]string
+						want = append(want, pol[:i]...)
+						want = append(want, pol[i+1:]...)
+						if !okr || rulesKey(after) != rulesKey(want) {
+							bad = fmt.Sprintf("after the ordering load RemovePolicy%v = %v leaves %s, expected %s", r, okr, rulesKey(after), rulesKey(want))
+						}
+						break
+					}
+				}
+				ch <- out{key}
 			}()
 			var got string
 			select {
@@ -407,6 +428,8 @@ func init() {
 			}
 			if got == "hang" || got == "panic" {
 				c.Direct(id, "ordering the policy by subject hierarchy did not terminate normally: "+got, QLL(gs))
+			} else if bad != "" {
+				c.Direct(id, bad, QLL(gs))
 			}
 			if compare {
 				c.Case(id, fmt.Sprintf("hier %s %s -1", QLL(gs), QLL(ps)))
